@@ -130,6 +130,8 @@ fn absorb(agg: &mut Agg, res: &run::RunResult, own: &str, run_idx: u64, args: &A
         if r.pendings.load(Relaxed) > 0 { Agg::bump(&mut agg.other, "operations_suspended_at_least_once", 1); }
         if r.via_raw.load(Relaxed) { Agg::bump(&mut agg.other, &format!("issued_through_scheduler_level_api:{}", d.kind.name()), 1); }
     }
+    let du = ctx.dropped_unwinding.load(Relaxed) as u64;
+    if du > 0 { Agg::bump(&mut agg.other, "panicked_object_dropped_by_unwinding_thread", du); }
     for (kind, _obj, loud) in ctx.attempts.lock().unwrap().iter() {
         Agg::bump(&mut agg.other, &format!("attempt_on_panicked_object:{}:{}", exec::ATTEMPT_NAMES[*kind as usize], if *loud { "failed_loudly" } else { "quiet" }), 1);
     }
